@@ -30,10 +30,22 @@ def main():
     try:
         mod = importlib.import_module('replay.' + doc['property'].lower())
         fn = getattr(mod, spec['func'])
-        res = fn(spec.get('inputs', {}))
     except Exception:
         traceback.print_exc()
         return 2
+    try:
+        res = fn(spec.get('inputs', {}))
+    except Exception as e:      # noqa
+        # The replay inputs are ones the unchanged library accepts (every replay function is run on the unchanged tree by the
+        # thorough tier).  An exception raised INSIDE the library on such an input is a failing input; an exception that never
+        # enters the library is a problem of the replay itself (exit 2).
+        tb = traceback.extract_tb(e.__traceback__)
+        inside = [f for f in tb if (os.sep + 'oqupy' + os.sep) in f.filename and (os.sep + 'replay' + os.sep) not in f.filename]
+        traceback.print_exc()
+        if not inside:
+            return 2
+        res = {'violates': True, 'the library raised on an input of the replay': type(e).__name__ + ': ' + str(e)[:200],
+               'raised in': '%s:%d (%s)' % (inside[-1].filename, inside[-1].lineno, inside[-1].name)}
     print(json.dumps(res, indent=1, default=str))
     return 1 if res.get('violates') else 0
 
